@@ -21,8 +21,15 @@ EqualIntr(t1, t2) == IF IsImp(t1.c) /\ IsImp(t2.c) /\ Arg1(t1.c) = Arg(t2.c) /\ 
                      THEN Sq(t1.h \cup t2.h, MkEq(Arg1(t1.c), Arg(t1.c))) ELSE ErrS
 EqualElim(t1, t2) == IF IsEq(t1.c) /\ Arg1(t1.c) = t2.c THEN Sq(t1.h \cup t2.h, Arg(t1.c)) ELSE ErrS
 SubstType(ti, th) == Sq({ STypeTerm(x, ti) : x \in th.h }, STypeTerm(th.c, ti))
-Substitution(inst, th) == LET H == { Subst(x, inst) : x \in th.h } c == Subst(th.c, inst) IN
-                          IF Err \in H \/ c = Err THEN ErrS ELSE Sq(H, c)
+\* ONE instantiation for the whole sequent: the type instantiation is first completed by matching the types of all
+\* instantiated schematic variables of all hypotheses and of the conclusion, then applied everywhere
+Substitution(inst, th) ==
+  LET svs == UNION { SVarsOf(x) : x \in th.h \cup {th.c} }
+      ti == MatchSVTypes(svs, inst.sv, inst.ty)
+  IN IF ti = ErrAL THEN ErrS
+     ELSE LET full == [ty |-> ti, sv |-> inst.sv]
+              H == { Subst(x, full) : x \in th.h } c == Subst(th.c, full) IN
+          IF Err \in H \/ c = Err THEN ErrS ELSE Sq(H, c)
 BetaConvR(t) == LET r == BetaConv(t) IN IF r = Err \/ ~WellTyped(t) THEN ErrS ELSE Sq({}, MkEq(t, r))
 IsV(x) == x[1] \in {"var","svar"}
 Abstraction(x, th) == IF ~IsV(x) \/ (\E hh \in th.h : Occurs(hh, x)) \/ ~IsEq(th.c) THEN ErrS
